@@ -167,6 +167,22 @@ pub fn table_factory(dir: &str, tier: &str, seed: u64, per: usize) -> (usize, u6
                 }
             }
         }
+        if !full {
+            // every value of one argument against a few values of the other
+            for ctor in [0, 1, 2, 4] {
+                let ch = r.below(16) as i64;
+                for a in 0..128 {
+                    for &b in &[0i64, 1, 64, 127] {
+                        w.push(&factory_row(ctor, imp, [ch, a, b, 0]));
+                        w.push(&factory_row(ctor, imp, [ch, b, a, 0]));
+                    }
+                }
+            }
+            for v in (r.below(3) as i64..16384).step_by(3) {
+                w.push(&factory_row(6, imp, [r.below(16) as i64, v, 0, 0]));
+                w.push(&factory_row(9, imp, [v, 0, 0, 0]));
+            }
+        }
         for ctor in [3, 5] {
             for ch in 0..16 {
                 for a in 0..128 {
